@@ -36,7 +36,7 @@ def number(value):
     if value is None:
         return None
 
-    if not any([re.match(r, str(value)) for r in regexps]):
+    if not any([re.match(r, str(value).strip()) for r in regexps]):
         raise ValueError("Invalid value for number: %s", value)
 
     return value
